@@ -6,6 +6,7 @@ import (
 	"encoding/base64"
 	"fmt"
 	"sort"
+	"strings"
 
 	"github.com/ethereum/go-ethereum/common"
 	"github.com/ethereum/go-ethereum/crypto"
@@ -577,8 +578,8 @@ func (g *genState) tx() *TxSpec {
 			return &TxSpec{Garbage: r.Bytes(r.Intn(40))}
 		case 1:
 			return &TxSpec{Garbage: []byte{}}
-		case 2: // valid base64, too short for a signature
-			return &TxSpec{Garbage: []byte("AAAA")}
+		case 2: // valid base64, too short for a signature; also with the line breaks the decoder skips
+			return &TxSpec{Garbage: []byte(lineBrokenGarbage(r, g))}
 		default: // well-formed tx with the signature bytes damaged
 			t := g.validTx()
 			b := t.Bytes(g.u)
@@ -700,4 +701,34 @@ func GenHistory(r *hx.Rand, u *Universe, p GenParams) []*Op {
 	}
 	ops = append(ops, &Op{Kind: "state"})
 	return ops
+}
+
+// lineBrokenGarbage: base64 text that is long as a string but short once decoded (Go's decoder skips CR and LF),
+// and a well-formed transaction wrapped like a PEM body.
+func lineBrokenGarbage(r *hx.Rand, g *genState) string {
+	switch r.Intn(7) {
+	case 0:
+		return "AAAA"
+	case 1:
+		return "AAAA" + strings.Repeat("\n", 83+r.Intn(40))
+	case 2:
+		return strings.Repeat("\n", 87+r.Intn(100))
+	case 3:
+		return strings.Repeat("\r\n", 44+r.Intn(10)) + "AAAAAA"
+	case 4:
+		return base64.RawURLEncoding.EncodeToString(r.Bytes(64)) + "\n\n\n"
+	case 5:
+		return strings.Repeat("\n", 90) + base64.RawURLEncoding.EncodeToString(r.Bytes(1+r.Intn(64)))
+	default:
+		if g == nil {
+			return strings.Repeat("\n", 200)
+		}
+		b := string(g.validTx().Bytes(g.u))
+		out := ""
+		for len(b) > 64 {
+			out += b[:64] + "\r\n"
+			b = b[64:]
+		}
+		return out + b
+	}
 }
